@@ -31,14 +31,22 @@ def run(tier, v):
     e2 = dict(viols=json.loads(json.loads('"' + m.group(1) + '"')), lines=open(tr).readlines())
     drift += e2ecommon.judge(PID, v, e2, {"C06"})
     log("  maintenance race: %d gated runs, %d events, %d clause violations" % (mr["cases"], len(e2["lines"]), len(e2["viols"])))
+    # schedules of Dispatch.tla (TLC-generated) replayed on the real dispatcher at the granularity of its
+    # actions: every goroutine parked at every gate (verif hook points + span starts), lock step
+    from checks import dschedcommon
+    ds = dschedcommon.run_dispatch_schedules(PID, tier, v)
     ok_attempts = sum(1 for l in e["lines"] if '"ev":"attempt"' in l and '"outcome":"ok"' in l)
     if ok_attempts < 50:
         raise vlib.Inconclusive("too few delivered notifications (%d)" % ok_attempts)
     cov = e2ecommon.coverage(e, "one case = one scenario run; non-trivial = number of delivered notifications each judged by Justified(prev, cur) "
                                 "(new firing alert / new resolved alert with send_resolved / repeat_interval elapsed / cycle break)", ok_attempts)
     cov["drift"] = drift
-    return "model_checking", cov, e2ecommon.ASSUMPTIONS
+    cov["dispatch_schedules"] = ds
+    return "model_checking", cov, e2ecommon.ASSUMPTIONS + dschedcommon.ASSUMPTIONS
 
 
 def replay(path, v):
+    if "sched" in __import__("os").path.basename(path):
+        from checks import dschedcommon
+        return dschedcommon.replay_dispatch_schedule(PID, path, v)
     raise vlib.Inconclusive("replay of a recorded scenario: run `bin/check C06` with the VERIF_SEED printed in the evidence")
